@@ -110,7 +110,7 @@ def edge_link_connected(B, e):
     return len(comp) == len(cs)
 
 
-def check_surface(B, V, d, which, all_positive):
+def check_surface(B, V, d, which, scale=1.0):
     """d: observation of an extracted boundary surface. Returns failures."""
     out = []
     b2m = {k: v for k, v in d["b2m_v"]}
@@ -122,7 +122,7 @@ def check_surface(B, V, d, which, all_positive):
         out.append((which + "/vertex-maps-not-inverse", "vertex index maps are not mutually inverse bijections between the border vertices and 0..n-1"))
         return out
     for i in range(nb):
-        if [float(x) for x in V[b2m[i]]] != d["verts"][i]:
+        if [float(x) * scale for x in V[b2m[i]]] != d["verts"][i]:
             out.append((which + "/vertex-position", "surface vertex %d is not at the position of volume vertex %d" % (i, b2m[i])))
             return out
     # exactly the border faces
@@ -150,8 +150,23 @@ def check_surface(B, V, d, which, all_positive):
             dd = [x for x in B.C[ic] if x not in (a, b, c)][0]
             pa, pb, pc, pd = V[a], V[b], V[c], V[dd]
             s = dot(cross(sub(pb, pa), sub(pc, pa)), sub(pd, pa))
-            if s >= 0:
+            if s > 0 or (s == 0 and not B.degenerate):
                 out.append((which + "/not-outward", "surface face %s (volume vertices %s) is not oriented outwards" % (f, (a, b, c))))
+                break
+    if d.get("distinct") is False:
+        out.append((which + "/result-shared-between-calls", "two extractions with equal arguments returned the same mutable surface / dict objects"))
+    if which == "bc" and "acc" in d:
+        bset = set(B.border_faces)
+        mf = {k: v for k, v in d["m2b_f"]}
+        for F, got in enumerate(d["acc"]["f2v"]):
+            want = B.fs[F] if F in bset else frozenset()
+            if frozenset(b2m.get(v) for v in got) != want or (F in bset and got != d["faces"][mf[F]]):
+                out.append(("bc/face_to_vertices", "boundary_connectivity.face_to_vertices(%d) answered %s" % (F, got)))
+                break
+        for Vv, got in enumerate(d["acc"]["v2f"]):
+            want = sorted(f for f in B.border_faces if Vv in B.fs[f])
+            if (got is None and want) or (got is not None and sorted(got) != want):
+                out.append(("bc/vertex_to_faces", "boundary_connectivity.vertex_to_faces(%d) answered %s, border faces at the vertex are %s" % (Vv, got, want)))
                 break
     if which == "bc":
         for nm, ref in (("f", B.border_faces), ("e", B.border_edges)):
@@ -182,6 +197,8 @@ def check(case, obs):
         return [("class", "a cell list produced a %s" % obs.get("class"))]
     faces, edges = obs["faces"], obs["edges"]
     B = Brute(V, C, faces, edges)
+    B.degenerate = bool(case.get("degenerate"))
+    scale = 2.0 ** int(case.get("scale_exp") or 0)
     out += B.structure_errors()
     if out:
         return out
@@ -189,6 +206,10 @@ def check(case, obs):
     nonmanifold_edges = [e for e in range(len(edges)) if not edge_link_connected(B, e)]
     for op, ans in zip(case["script"], obs["answers"]):
         nm, a = op[0], op[1:]
+        if nm.startswith("bad:"):
+            continue        # an out-of-range id: whatever it answers or raises, the later answers must still be right
+        if nm in ("face_id_t", "face_id_l"):
+            nm = "face_id"
         what = "%s%s" % (nm, tuple(a))
 
         def bad(msg, key=None):
@@ -301,12 +322,12 @@ def check(case, obs):
             if ans[0] != "bc":
                 bad("no boundary connectivity")
             else:
-                out += check_surface(B, V, ans[1], "bc", all_positive)
+                out += check_surface(B, V, ans[1], "bc", scale)
         elif nm == "extract":
             if ans[0] != "ex" or ans[1].get("class") != "SurfaceMesh":
                 bad("no surface")
             else:
-                out += check_surface(B, V, ans[1], "ex", all_positive)
+                out += check_surface(B, V, ans[1], "ex", scale)
     return out
 
 
